@@ -30,14 +30,26 @@ MUTS = [
 
 
 def items_of(repo, name):
+    """(file, line, line, anchor, False) for every SOURCE LINE that is present in the generated unit (omitted methods and
+    the bodies of contract-only functions are not in it, so they are not mutated)"""
     g = unit.generate(repo, os.path.join(ROOT, 'contracts', name + '.vu'), gens.GENERATORS)
-    out = []
+    t8 = set()
     for it in g.items:
-        if 'generated' in it or it['file'].startswith('dep:'):
+        if 'generated' in it:
             continue
-        if 'T8' in it.get('rules', []) and not it.get('functions'):
+        for d in it.get('dropped', []):
+            if d.get('rule') == 'T8':
+                t8.add((it['file'], it['anchor']))
+    out = []
+    seen = set()
+    for o in g.origin:
+        if o.get('kind') != 'src' or o['file'].startswith('dep:') or 'model/v1beta0.rs' in o['file'] or (o['file'], o.get('anchor')) in t8:
             continue
-        out.append((it['file'], it['span_lines'][0], it['span_lines'][1], it['anchor'], 'T8' in it.get('rules', [])))
+        k = (o['file'], o['line'])
+        if k in seen:
+            continue
+        seen.add(k)
+        out.append((o['file'], o['line'], o['line'], o.get('anchor'), False))
     return out
 
 
